@@ -6,7 +6,16 @@ render, condition naming a missing detection), in every position.  Observable: t
 the (rule, error) records of one `Backend.convert` with error collection on / off.  Deciding: compared with
 converting every rule *alone* with a fresh backend (each rule's queries must be exactly its solo queries,
 in collection order; a failing rule contributes no query and exactly one record carrying its solo error;
-without collection the first failing rule's error is raised).  Diagnostic: the Lean model `convertAll`."""
+without collection the first failing rule's error is raised).  Diagnostic: the Lean model `convertAll`.
+
+Round 4: (a) the `callback` parameter of `Backend.convert` (documented: the returned value replaces the query, only None
+skips it) with pure callbacks of several value classes (identity, condition index, counts, booleans, empty and non-empty
+strings/containers, skipping); the expected list is the callback applied by hand to the solo queries, so every condition
+stays accounted for.  (b) a backend whose query frame reads the pipeline state with backend defaults
+(`query_expression` with `{state[..]}` + `state_defaults`) under a pipeline that sets the state for some rules only
+(also for rules that fail afterwards): the state a rule leaves must not be visible in a later rule's query.  Every backend
+instance gets a fresh class with its own copies of all mutable class-level containers, so the solo oracle cannot be
+contaminated by state another conversion left on a shared class."""
 from __future__ import annotations
 import copy, random
 from .common import Verdict, outcome_of_exception
@@ -18,7 +27,10 @@ RULE = ("collections of 1..6 rules drawn from {ok single condition, ok two condi
         "length 3 exhaustively, sampled beyond) x pipeline on/off x error collection on/off; distinct = distinct "
         "(arrangement, pipeline, collect); non-trivial = at least one failing and one succeeding rule"
         "; x backend variants (not-equals rendering, no in-lists) x a pipeline with an added condition and in-place field/value transformations; plus arrangements of verbatim copies of one rule"
-        "; correlation rules over a failing referenced rule (in every order, collecting and not)")
+        "; correlation rules over a failing referenced rule (in every order, collecting and not)"
+        "; round 4: x conversion callback {identity, condition index, wildcard count, boolean, blank string, empty/non-empty container, skip odd} "
+        "judged against the callback applied by hand to the solo queries; x backend whose query frame reads the pipeline state with "
+        "state_defaults under a pipeline that sets the state for some rules only (incl. rules failing afterwards)")
 ASSUMPTIONS = [
     "a backend that lacks a feature raises NotImplementedError, which pySigma deliberately does not collect: failure stages are the four the property names, all Sigma errors",
     "correlation rules are C09/C10's subject; here collections contain detection rules only",
@@ -60,10 +72,54 @@ PIPE_ADD = {"name": "p", "priority": 10, "transformations": [
     {"id": "rep", "type": "replace_string", "regex": "^", "replacement": "x"},
     PIPE["transformations"][1],
 ]}
-PIPES = {False: PIPE_NOFAIL, True: PIPE, "add": PIPE_ADD}
+# the pipeline state is set for some rules only: those with field h (ok2), those with fieldB (oknot, and notplaceholder which
+# fails afterwards in the conversion), and those that fail later in the pipeline itself
+PIPE_STATE = {"name": "p", "priority": 10, "transformations": [
+    PIPE["transformations"][0],
+    {"id": "st_h", "type": "set_state", "key": "idx", "val": "special", "rule_conditions": [{"type": "contains_field", "field": "h"}]},
+    {"id": "st_b", "type": "set_state", "key": "src", "val": "fromB", "rule_conditions": [{"type": "contains_field", "field": "fieldB"}]},
+    {"id": "st_f", "type": "set_state", "key": "idx", "val": "failing", "rule_conditions": [{"type": "logsource", "category": "fail"}]},
+    {"id": "st_f2", "type": "set_state", "key": "extra", "val": "left", "rule_conditions": [{"type": "logsource", "category": "fail"}]},
+    PIPE["transformations"][1],
+]}
+PIPES = {False: PIPE_NOFAIL, True: PIPE, "add": PIPE_ADD, "state": PIPE_STATE}
 # backend variants: class attributes of a fresh TextQueryTestBackend subclass
 BACKENDS = {"std": {}, "noteq": {"convert_not_as_not_eq": True, "not_eq_token": "!="},
-            "noin": {"convert_or_as_in": False, "convert_and_as_in": False}}
+            "noin": {"convert_or_as_in": False, "convert_and_as_in": False},
+            # the query frame reads the pipeline state; keys the pipeline did not set for the rule come from the backend's defaults
+            "state": {"query_expression": "idx={state[idx]} src={state[src]} extra={state[extra]} | {query}",
+                      "state_defaults": {"idx": "main", "src": "any", "extra": "none"}}}
+CALLBACKS = ["id", "index", "stars", "flag", "blank", "box", "emptybox", "skipodd"]
+
+
+def apply_callback(kind, title, index, result):
+    """The pure conversion callbacks of the sweep, as functions of (rule title, condition index, query).  Documented contract of
+    the `callback` parameter: the returned value replaces the query; only None skips it."""
+    if result is None:
+        return None
+    if kind == "id":
+        return result
+    if kind == "index":
+        return index
+    if kind == "stars":
+        return result.count("*")
+    if kind == "flag":
+        return "*" in result
+    if kind == "blank":
+        return result if "*" in result else ""
+    if kind == "box":
+        return [title, index, result]
+    if kind == "emptybox":
+        return [result] if index else []
+    if kind == "skipodd":
+        return None if index % 2 else result
+    raise ValueError(kind)
+
+
+def mk_callback(kind):
+    if kind is None:
+        return None
+    return lambda rule, output_format, index, cond, result: apply_callback(kind, rule.title, index, result)
 
 
 def gen_cases(tier, seed, gen, effort):
@@ -92,6 +148,18 @@ def gen_cases(tier, seed, gen, effort):
     for a in arrs[: (400 if not thorough else 4000)]:
         if len(a) >= 2 and len(set(a)) < len(a):
             cases.append({"kinds": list(a), "pipe": True, "collect": True, "backend": "std", "same": True})
+    # round 4 (b): a backend whose query frame reads the pipeline state, the pipeline sets it for some rules only
+    for a in arrs:
+        if len(a) < 2 or (len(a) == 3 and rnd.random() < 0.5):
+            continue
+        for collect in (True, False):
+            cases.append({"kinds": list(a), "pipe": "state" if rnd.random() < 0.85 else rnd.choice([True, "add"]), "collect": collect, "backend": "state"})
+    # round 4 (a): convert with a callback
+    for a in arrs:
+        if len(a) == 3 and rnd.random() < 0.4:
+            continue
+        cases.append({"kinds": list(a), "pipe": rnd.choice([True, True, False, "add", "state"]), "collect": rnd.random() < 0.7,
+                      "backend": rnd.choice(["std", "std", "noteq", "noin", "state"]), "callback": rnd.choice(CALLBACKS)})
     return cases, False
 
 
@@ -99,7 +167,16 @@ def mk_backend(pipe, collect, be="std"):
     from sigma.backends.test import TextQueryTestBackend
     from sigma.processing.pipeline import ProcessingPipeline
     pl = ProcessingPipeline.from_dict(copy.deepcopy(PIPES[pipe]))
-    cls = type("B_" + be, (TextQueryTestBackend,), dict(BACKENDS[be]))       # a fresh class per backend: no shared class state
+    # a fresh class per backend with its own copies of every mutable class-level container: no class state is shared between the
+    # solo conversions and the conversion of the collection
+    attrs = {}
+    for name in dir(TextQueryTestBackend):
+        if not name.startswith("__"):
+            v = getattr(TextQueryTestBackend, name, None)
+            if isinstance(v, (dict, list, set)):
+                attrs[name] = copy.deepcopy(v)
+    attrs.update(copy.deepcopy(BACKENDS[be]))
+    cls = type("B_" + be, (TextQueryTestBackend,), attrs)
     return cls(pl, collect_errors=collect)
 
 
@@ -142,20 +219,42 @@ def run_impl(case):
     try:
         b = mk_backend(case["pipe"], case["collect"], case.get("backend", "std"))
         coll = SigmaCollection.from_dicts(copy.deepcopy(docs))
-        out = b.convert(coll)
+        out = b.convert(coll, callback=mk_callback(case["callback"])) if case.get("callback") else b.convert(coll)
         return {"outcome": "ok", "output": out, "errors": [[r.title, outcome_of_exception(e)] for r, e in b.errors], "solo": solo}
     except Exception as e:
         return {"outcome": outcome_of_exception(e), "msg": str(e)[:120], "solo": solo}
 
 
+def title_of(case, i):
+    return f"{case['kinds'][i]}_{0 if case.get('same') else i}"
+
+
+def solo_expected(case, impl):
+    """per rule: the entries the collection must contribute for it = its solo queries (converted alone by a fresh backend, no
+    callback), with the case's callback applied by hand and the None results skipped"""
+    cb = case.get("callback")
+    res = []
+    for i, s in enumerate(impl["solo"]):
+        if "ok" not in s:
+            res.append(None)
+        elif cb is None:
+            res.append(list(s["ok"]))
+        else:
+            vals = [apply_callback(cb, title_of(case, i), j, q) for j, q in enumerate(s["ok"])]
+            res.append([v for v in vals if v is not None])
+    return res
+
+
 def make_request(case, impl, gen):
     if case.get("corrfail"):
         return {"op": "ping"}
+    import json
     qid, eid = {}, {}
     rules = []
+    exp = solo_expected(case, impl)
     for i, s in enumerate(impl["solo"]):
         if "ok" in s:
-            res = {"ok": [qid.setdefault(q, len(qid)) for q in s["ok"]]}
+            res = {"ok": [qid.setdefault(json.dumps(q), len(qid)) for q in exp[i]]}
         else:
             res = {"err": eid.setdefault(s["err"], len(eid))}
         rules.append({"id": i, "refs": [], "output": True, "result": res})
@@ -188,20 +287,22 @@ def judge(case, impl, reply):
     io = impl["outcome"]
     solo = impl["solo"]
     kinds = case["kinds"]
-    key = (kinds, case["pipe"], case["collect"], case.get("backend", "std"), case.get("same"))
+    key = (kinds, case["pipe"], case["collect"], case.get("backend", "std"), case.get("same"), case.get("callback"))
     fails = [i for i, s in enumerate(solo) if "err" in s]
     nt = 0 < len(fails) < len(kinds)
-    tags = (f"n:{len(kinds)}", f"fails:{min(len(fails), 3)}", f"collect:{case['collect']}", f"pipe:{case['pipe']}", f"backend:{case.get('backend', 'std')}", f"impl:{io.split(':')[0]}")
+    tags = (f"n:{len(kinds)}", f"fails:{min(len(fails), 3)}", f"collect:{case['collect']}", f"pipe:{case['pipe']}", f"backend:{case.get('backend', 'std')}", f"impl:{io.split(':')[0]}",
+            f"callback:{case.get('callback')}")
+    cbtxt = f", callback={case['callback']}" if case.get("callback") else ""
     for i, s in enumerate(solo):
         if "err" in s and s["err"].startswith("other:"):
             return Verdict("violation", f"rule {kinds[i]} alone raises non-Sigma {s['err']}", nt, key, tags=tags)
-    want_out = [q for s in solo if "ok" in s for q in s["ok"]]
-    want_err = [[f"{kinds[i]}_{0 if case.get('same') else i}", solo[i]["err"]] for i in fails]
+    want_out = [q for e in solo_expected(case, impl) if e is not None for q in e]
+    want_err = [[title_of(case, i), solo[i]["err"]] for i in fails]
     if case["collect"]:
         if io != "ok":
             return Verdict("violation", f"error collection is on but convert raised {io}: {impl.get('msg')} for {kinds}", nt, key, tags=tags)
         if impl["output"] != want_out:
-            return Verdict("violation", f"collection {kinds} (pipeline={case['pipe']}, backend={case.get('backend', 'std')}): emitted {impl['output']} but the rules converted alone give {want_out}", nt, key, tags=tags)
+            return Verdict("violation", f"collection {kinds} (pipeline={case['pipe']}, backend={case.get('backend', 'std')}{cbtxt}): emitted {impl['output']} but the rules converted alone give {want_out}", nt, key, tags=tags)
         if impl["errors"] != want_err:
             return Verdict("violation", f"collection {kinds}: error records {impl['errors']} but failing rules are {want_err}", nt, key, tags=tags)
     else:
@@ -210,7 +311,7 @@ def judge(case, impl, reply):
                 return Verdict("violation", f"collection {kinds} without error collection: expected the first failing rule's error {solo[fails[0]]['err']} to be raised, got {io}", nt, key, tags=tags)
         else:
             if io != "ok" or impl["output"] != want_out:
-                return Verdict("violation", f"collection {kinds}: {io} / {impl.get('output')} but the rules converted alone give {want_out}", nt, key, tags=tags)
+                return Verdict("violation", f"collection {kinds} (pipeline={case['pipe']}, backend={case.get('backend', 'std')}{cbtxt}): {io} / {impl.get('output')} but the rules converted alone give {want_out}", nt, key, tags=tags)
     # model drift: convertAll
     if reply["outcome"] == "ok":
         if io != "ok" or len(reply["queries"]) != len(impl["output"]) or len(reply["errors"]) != len(impl["errors"]):
